@@ -43,7 +43,7 @@ COMPONENTS = {"real": ["Broker.accrued_interest", "Broker.rebalance", "Broker.tr
 PROBE_FLOORS = {"negative_cash": 200, "floor_positive_cash_negative_net_rate": 50, "sub_day_interval": 200,
                 "multi_decade_interval": 50, "five_or_more_cuts": 100, "query_between_cuts": 200,
                 "backwards_time_rejected": 200, "margined_position_alongside": 100, "empty_rebalance_accrual": 100,
-                "env_level_interest_checked": 300, "rate_book_zero_before_first_rate_event": 100,
+                "env_level_interest_checked": 300, "tabular_interest_checked": 3000, "tabular_rate_back_at_an_earlier_level": 1000, "rate_book_zero_before_first_rate_event": 100,
                 "timezone_aware_mixed_offsets": 2000, "accrual_clock_started_by_rebalance": 200,
                 "rate_event_replayed_at_reset": 50, "rate_book_checked_at_execution": 2000,
                 "futures_price_moved_between_accruals": 500, "negative_rate_quoted_with_a_spread": 40}
@@ -195,9 +195,101 @@ def execute_epi(scenario):
             "stats": sim.stats, "trace": trace, "nontrivial": n_judged >= 2 and len(probes) >= 1}
 
 
+def generate_xy(rng, i):
+    """Tabular arm: an all-cash account in a TradingEnvXY whose reference-rate series is a step function that
+    comes back to levels it held before (2% -> 5% -> 2%); the interest of every constant stretch is judged."""
+    from tesim import xy
+    tb = xy.gen_tables(rng, {"n_min": 40, "n_max": 70, "freqs": ["D"]})
+    n = len(tb["dates"])
+    tb["x_rows"] = list(range(n))
+    tb["X"] = [[0.1 * ((r + j) % 7) for j in range(len(tb["xcols"]))] for r in range(n)]
+    for r, row in enumerate(tb["Y"]):
+        for j, v in enumerate(row):
+            if v != v:
+                row[j] = tb["Y"][r - 1][j] if r > 0 else 100.0
+    levels = rng.sample([0.02, 0.05, 0.0, -0.01, 0.1, 0.0125], 3)
+    rate, k, turn = [], 0, 0
+    while k < n:
+        run = rng.randint(2, 9)
+        lv = levels[turn % 2] if turn % 5 != 4 else levels[2]      # A B A B C A B ...: every level is revisited
+        rate += [lv] * min(run, n - k)
+        k += run
+        turn += 1
+    tb["rate"] = rate
+    kw = {"window": rng.choice([1, 2]), "stride": None, "spread": 0.0, "transformer": None, "clip": 5.0, "steps_delay": 0,
+          "margin": 0.0, "calendar": "24/7", "latency": 0, "markup": rng.choice([0.0, 0.005, 0.02]), "fee": 0.0, "fixed": 0.0,
+          "cash": rng.choice([100.0, 1e6])}
+    return {"kind": "xy06", "tables": tb, "kwargs": kw, "np_seed": rng.randrange(2 ** 31)}
+
+
+def execute_xy(scenario):
+    from tesim import xy
+    import warnings
+    import numpy as np
+    import pandas as pd
+    from tradingenv.contracts import Cash
+    violations, probes, faults, log = [], {}, {}, []
+
+    def probe(nm):
+        probes[nm] = probes.get(nm, 0) + 1
+    tb, kw = scenario["tables"], scenario["kwargs"]
+    given = {pd.Timestamp(d): r for d, r in zip(tb["dates"], tb["rate"])}
+    n_judged = 0
+    with core.sim_context():
+        env, X0, Y0, rate0 = xy.make_env(scenario)
+        ny = len(tb["ycols"])
+        np.random.seed(scenario.get("np_seed", 0) % (2 ** 32))
+        with warnings.catch_warnings():
+            warnings.simplefilter("ignore")
+            env.reset()
+            prev = None
+            done = False
+            while not done and len(log) < 200:
+                obs, reward, done, info = env.step(np.zeros(ny))
+                e = env.broker.track_record[-1]
+                t = pd.Timestamp(e.time)
+                cash = float(env.broker.holdings_quantity[Cash()])
+                interest = float(e.profit_on_idle_cash)
+                log.append([str(t), cash, interest])
+                if prev is not None and t in given and prev[0] in given and given[t] == given[prev[0]]:
+                    r = given[t]
+                    secs = (t - prev[0]).total_seconds()
+                    m = model_amount(prev[1], r, kw["markup"], secs)
+                    tol = D("1e-12") * abs(D(prev[1])) + D("1e-11") * abs(m) + D("1e-300")
+                    if abs(D(interest) - m) > tol or abs(D(cash) - (D(prev[1]) + D(interest))) > D("1e-9") * max(D(1), abs(D(cash))):
+                        violations.append({"clause": "amount", "sig": {"regime": "tabular"}, "op": len(log) - 1,
+                                           "msg": "tabular environment, all-cash account: over {} -> {} the given rate is constant at {} (markup {}) but the interest credited on {} is {} (cash now {}), expected {}".format(
+                                               prev[0], t, r, kw["markup"], prev[1], interest, cash, float(m))})
+                        break
+                    n_judged += 1
+                    probe("tabular_interest_checked")
+                    if any(lv == r for (lv, closed) in list(seen_levels(tb["rate"], tb["dates"], t))):
+                        probe("tabular_rate_back_at_an_earlier_level")
+                prev = (t, cash, given.get(t))
+    return {"violations": violations, "digest": core.digest(log), "probes": probes, "faults": faults,
+            "stats": {"ops": len(log), "steps": len(log), "accruals": n_judged, "sim_seconds": 86400 * len(log)},
+            "trace": "xy06|m{}|w{}|j{}".format(kw["markup"], kw["window"], n_judged), "nontrivial": n_judged >= 2}
+
+
+def seen_levels(rate, dates, t):
+    """Levels the rate held in an earlier, closed stretch before the stretch that contains t."""
+    import pandas as pd
+    out, cur = [], None
+    stretches = []
+    for d, r in zip(dates, rate):
+        if pd.Timestamp(d) > t:
+            break
+        if r != cur:
+            stretches.append(r)
+            cur = r
+    return [(lv, True) for lv in stretches[:-1] if stretches and lv == stretches[-1]]
+
+
 def generate(rng, i):
     if i % 6 == 5:
         return generate_epi(rng, i)
+    if i % 24 == 7:
+        return generate_xy(rng, i)
     rate = rng.choice([0.0, 0.01, 0.05, 0.2, -0.02, 0.2499, round(rng.uniform(-0.05, 0.249), 5), -0.3, -0.6, -0.25])
     markup = rng.choice([0.0, 0.0, 0.005, 0.03, round(rng.uniform(0, 0.06), 4)])
     if 1 + rate - markup <= 0.01:
@@ -331,6 +423,8 @@ def execute(scenario):
     sc = scenario
     if sc.get("kind") == "epi":
         return execute_epi(sc)
+    if sc.get("kind") == "xy06":
+        return execute_xy(sc)
     with core.sim_context():
         return _execute(sc)
 
@@ -569,16 +663,19 @@ def describe(scenario):
     if scenario.get("kind") == "epi":
         from tesim import gen_epi
         return gen_epi.describe(scenario)
+    if scenario.get("kind") == "xy06":
+        tb = scenario["tables"]
+        return {"tabular": True, "rows": len(tb["dates"]), "first": tb["dates"][0], "last": tb["dates"][-1], "rate_head": tb["rate"][:30], "kwargs": scenario["kwargs"]}
     return {k: scenario[k] for k in ("cash", "rate", "markup", "setup", "script")}
 
 
 def shrink_paths(scenario):
-    return [("script",)]
+    return [] if scenario.get("kind") == "xy06" else [("script",)]
 
 
 def simplify(scenario):
     import copy
-    if scenario.get("kind") == "epi":
+    if scenario.get("kind") in ("epi", "xy06"):
         return
     if scenario["setup"] != "deposit":
         c = copy.deepcopy(scenario)
